@@ -67,6 +67,9 @@ def main(repo):
                         except Exception:  # noqa
                             pass
                     reach(v, seen, "%r.%s" % (x, a))
+                # plain instance data of the atom itself (ions, isotope dictionary, ...)
+                for a, v in list(vars(x).items()):
+                    reach(v, seen, "%r.%s" % (x, a))
         return seen
 
     A, B, C = collect(pt.elements), collect(T), collect(T2)
@@ -91,6 +94,42 @@ def main(repo):
                         vy = "raises " + type(e).__name__
                     if vx != vy:
                         differs.append("%s: %r.%s differs from the public value" % (name, y, a))
+    # calculators that take table=T work on T's atoms: on a fresh T they return the public numbers, and
+    # after T's data changed they follow T
+    for text in ("C3H4H[1]NO@1.29n", "C6H5H[1]2OH@1.1", "H[1]2O@1", "NaCl@2.16", "D2O@1n"):
+        for fn in (nsf.D2O_match, nsf.D2O_sld):
+            kw = dict(D2O_fraction=0.3) if fn is nsf.D2O_sld else {}
+            try:
+                vx = _dig(fn(text, **kw))
+            except Exception as e:  # noqa
+                vx = "raises " + type(e).__name__
+            for name, t in (("first private table", T), ("second private table", T2)):
+                try:
+                    vy = _dig(fn(text, table=t, **kw))
+                except Exception as e:  # noqa
+                    vy = "raises " + type(e).__name__
+                if vx != vy:
+                    differs.append("%s: %s(%r, table=T) = %r, public %r" % (name, fn.__name__, text, vy, vx))
+    # pickled atoms of T are restored into T, whether or not the caller still holds T
+    import gc
+    import pickle
+
+    def dropped():
+        t = new_table("ptv-dropped")
+        return [t.Fe, t.Fe[56], t.Fe.ion[2], t.Fe[56].ion[3], t.D, t[0]]
+    held = dropped()
+    gc.collect()
+    restored = []
+    for group, name in ((held, "ptv-dropped"), ([T.Fe, T.Fe[56], T.Fe.ion[2], T.D, T2.O[16].ion[-2]], None)):
+        for a in group:
+            try:
+                b = pickle.loads(pickle.dumps(a))
+            except Exception as e:  # noqa
+                restored.append("pickle round trip of %r of table %r raised %s" % (a, a.table, type(e).__name__))
+                continue
+            if b is not a:
+                restored.append("pickle round trip of %r of table %r gives another object (of table %r)"
+                                % (a, a.table, getattr(b, "table", None)))
     foreign = []
     cases = [
         ("formula", lambda: formulas.formula("Fe2O3 + 3H2O", table=T)),
@@ -113,7 +152,7 @@ def main(repo):
             if core.change_table(a, T) is not a:
                 foreign.append("%s(..., table=T) contains %r, which is not an atom of T" % (name, a))
     print(json.dumps(dict(shared=shared, foreign=sorted(set(foreign)), objects=len(A), differs=differs[:40],
-                          ndiffers=len(differs))))
+                          ndiffers=len(differs), restored=restored)))
 
 
 if __name__ == "__main__":
